@@ -364,3 +364,7 @@ func checkC19Pub(t *testing.T, c C19PubCase) *stats.Verdict {
 func TestC19Publish(t *testing.T) {
 	stats.Run(t, stats.Prop[C19PubCase]{ID: "C19", Rule: ruleC19b, Gen: genC19Pub, Check: checkC19Pub})
 }
+
+func FuzzC19(f *testing.F) {
+	stats.Fuzz(f, stats.Prop[C19Case]{ID: "C19", Rule: ruleC19a, Gen: genC19, Check: checkC19})
+}
